@@ -35,6 +35,9 @@ def wall_for(cfg):
         # the floor is strongly slanted with respect to the flux surfaces of the outer leg: with a fine target spacing some contours of a non-orthogonal
         # grid have to be extended before they reach the wall
         w = [(rmin, -0.3), (rmax, -0.65), (rmax, zmax), (rmin, zmax)]
+    elif kind == "steep2":
+        # the same at both ends (up-down symmetric)
+        w = [(rmin, -0.3), (rmax, -0.65), (rmax, 0.65), (rmin, 0.3)]
     elif kind == "poly":
         w = [(rmin, zmin), (rmin - 0.02, -0.2), (rmin - 0.03, 0.0), (rmin - 0.02, 0.2), (rmin, zmax), (1.4, zmax + 0.01),
              (1.6, zmax + 0.01), (rmax, zmax), (rmax + 0.02, 0.2), (rmax + 0.03, 0.0), (rmax + 0.02, -0.2), (rmax, zmin),
